@@ -68,9 +68,9 @@ def pyv(v):
         return 'PNone'
     if type(v) is bool:
         return f'(PBool {cbool(v)})'
-    if type(v) is int:
-        return f'(PInt {cz(v)})'
-    if type(v) is float:
+    if isinstance(v, int):
+        return f'(PInt {cz(int(v))})'
+    if isinstance(v, float):          # numpy.float64 is a float, and json.dumps writes it as one
         return f'(PFloat {cfl(v)})'
     if type(v) is str:
         return f'(PStr {cstr(v)})'
